@@ -197,6 +197,22 @@ class DebugInfo:
                                         addr,
                                         end_offset)
                         break
+                else:
+                    # no marker: the body had statements, but they
+                    # produced no code (the optimiser removed it).
+                    # Their (empty) records still tell where the body
+                    # would be.
+                    inside = [
+                        stmt.start_offset for stmt in self.stmts
+                        if start_offset < stmt.start_offset < end_offset
+                    ]
+                    addr = min(inside) if inside else end_offset
+                    add_node_record(block.start_stmt,
+                                    start_offset,
+                                    addr)
+                    add_node_record(block.end_stmt,
+                                    addr,
+                                    end_offset)
 
         self.stmts.sort(key=lambda r: r.start_offset)
 
